@@ -7,7 +7,7 @@
 import json, os, shutil, subprocess, sys
 from concurrent.futures import ThreadPoolExecutor
 SRC = sys.argv[1] if len(sys.argv) > 1 else "/tmp/mut/out_eq"
-DEST = "/verif/seeded_eq"
+DEST = "/verif/seeded_eq" + ("2" if SRC.rstrip("/").endswith("out_eq2") else "")
 PROPS = ["C%02d" % i for i in range(1, 21)]
 
 
